@@ -186,6 +186,59 @@ pub fn ident(r: &mut Rng) -> String {
 }
 
 // ---------------------------------------------------------------------------------------------
+// stall watchdog: a run of the REAL code that stops making progress (a call that never returns: deadlock,
+// livelock, unbounded wait) must end as a reported failure, not as a hung check. `Out::case` / `Out::op` bump a
+// progress counter and keep a copy of the current case; the watchdog thread writes `stall.json` (case number, tag,
+// ops issued so far) when nothing moved for `VERIF_STALL_S` seconds (default 600) and aborts the process. All
+// streams are flushed at every case start and the oracle stream at every failure, so what was found before the
+// stall (or before a crash) is not lost.
+
+static PROGRESS: std::sync::atomic::AtomicU64 = std::sync::atomic::AtomicU64::new(0);
+static CUR_CASE: std::sync::Mutex<(u64, String, Vec<String>)> = std::sync::Mutex::new((0, String::new(), Vec::new()));
+
+fn progress() {
+    PROGRESS.fetch_add(1, std::sync::atomic::Ordering::Relaxed);
+}
+
+pub fn start_watchdog(dir: &Path) {
+    let dir = dir.to_path_buf();
+    let limit: u64 = std::env::var("VERIF_STALL_S").ok().and_then(|s| s.parse().ok()).unwrap_or(600);
+    std::thread::Builder::new()
+        .name("mv-watchdog".into())
+        .spawn(move || {
+            let mut last = PROGRESS.load(std::sync::atomic::Ordering::Relaxed);
+            let mut idle = 0u64;
+            loop {
+                std::thread::sleep(std::time::Duration::from_secs(1));
+                let now = PROGRESS.load(std::sync::atomic::Ordering::Relaxed);
+                if now != last {
+                    last = now;
+                    idle = 0;
+                    continue;
+                }
+                idle += 1;
+                if idle >= limit {
+                    let (n, tag, ops) = match CUR_CASE.lock() {
+                        Ok(g) => g.clone(),
+                        Err(e) => e.into_inner().clone(),
+                    };
+                    let body = format!(
+                        "{{\"case\":{},\"tag\":{},\"stalled_s\":{},\"ops\":{}}}\n",
+                        n,
+                        json_str(&tag),
+                        idle,
+                        json_str(&ops.join("\n"))
+                    );
+                    let _ = std::fs::write(dir.join("stall.json"), body);
+                    eprintln!("mv-harness: no progress for {} s in case {} {} — giving up", idle, n, tag);
+                    std::process::abort();
+                }
+            }
+        })
+        .expect("watchdog thread");
+}
+
+// ---------------------------------------------------------------------------------------------
 // output
 
 pub struct Out {
@@ -231,6 +284,13 @@ impl Out {
         let l = format!("# case {} {}", self.n_cases, tag);
         writeln!(self.ops, "{}", l).unwrap();
         writeln!(self.imp, "{}", l).unwrap();
+        // keep the files consistent up to the start of the case that is running (see the watchdog above)
+        self.ops.flush().unwrap();
+        self.imp.flush().unwrap();
+        if let Ok(mut g) = CUR_CASE.lock() {
+            *g = (self.n_cases, tag.to_string(), Vec::new());
+        }
+        progress();
     }
     fn end_case(&mut self) {
         if self.cur_case.is_empty() {
@@ -264,6 +324,12 @@ impl Out {
         writeln!(self.imp, "{}", impl_answer).unwrap();
         self.n_ops += 1;
         self.cur_case.push(op.to_string());
+        if let Ok(mut g) = CUR_CASE.lock() {
+            if g.2.len() < 4000 {
+                g.2.push(op.to_string());
+            }
+        }
+        progress();
     }
     /// mark the current case as non-trivial by the property's rule
     pub fn nontrivial(&mut self) {
@@ -288,6 +354,8 @@ impl Out {
             json_str(&case)
         )
         .unwrap();
+        self.oracle.flush().unwrap();
+        progress();
     }
     pub fn finish(mut self) {
         self.end_case();
